@@ -1043,6 +1043,15 @@ pub fn swarm_for(profile: &str, rng: &mut Rng, thorough: bool) -> Swarm {
                 sw.w.commit = 4;
                 sw.w.rollback = 1;
             }
+            if rng.chance(1, 6) {
+                // hundreds of rows per table: index trees with interior pages, many equal keys
+                sw.p_multi_insert = 90;
+                sw.min_rows_per_insert = 60;
+                sw.max_rows_per_insert = 110;
+                sw.w.insert *= 2;
+                sw.p_long = 0;
+                sw.n_ops = sw.n_ops.max(20);
+            }
         }
         "values" => {
             sw.extremes = true;
@@ -1085,6 +1094,16 @@ pub fn swarm_for(profile: &str, rng: &mut Rng, thorough: bool) -> Swarm {
             sw.w.close_reopen = 4;
             sw.w.drop_reopen = 2;
             sw.max_tables = rng.range(2, 6) as usize;
+            if rng.chance(1, 6) {
+                // hundreds of rows: trees of several levels under the DDL statements (CREATE INDEX
+                // backfill with root splits, DROP COLUMN rewriting many pages)
+                sw.p_multi_insert = 90;
+                sw.min_rows_per_insert = 60;
+                sw.max_rows_per_insert = 110;
+                sw.w.insert *= 3;
+                sw.p_long = 0;
+                sw.n_ops = sw.n_ops.max(20);
+            }
         }
         "life" => {
             sw.w.checkpoint = 6;
